@@ -43,21 +43,23 @@ class Cb(object):
 
 
 class World(object):
-    """Shared between the real emitter run and the reference run: the log and the re-entrant action."""
-    def __init__(self, emitter_ops, actor, action):
+    """Shared between the real emitter run and the reference run: the log and the re-entrant behaviour.
+    actors: list of [identity, [operations], acted]; a callback whose identity equals an actor's performs that actor's
+    operations (once) when it is invoked -- also from inside a nested emit (re-entrancy to the depth of the actor list)."""
+    def __init__(self, emitter_ops, actors):
         self.log = []
         self.ops = emitter_ops      # object with on/once/off/emit
-        self.actor = actor          # identity that acts (or None)
-        self.action = action        # (op, name, cb_ident, arg)
-        self.acted = False
+        self.actors = [[a, list(ops), False] for a, ops in actors]
 
     def maybe_act(self, ident):
-        if self.actor is None or self.acted:
-            return
-        same = (ident == self.actor)
-        if same:
-            self.acted = True
-            apply_op(self.ops, self.action, self)
+        for act in self.actors:
+            if act[2]:
+                continue
+            same = (ident == act[0])
+            if same:
+                act[2] = True
+                for op in act[1]:
+                    apply_op(self.ops, op, self)
 
 
 def apply_op(em, op, world):
@@ -171,7 +173,8 @@ class EmitterStep(Harness):
     doc = 'one operation (with one re-entrant operation inside callbacks) from an arbitrary emitter state equals the reference model'
     functions = ('tinyemitter.Emitter.on', 'tinyemitter.Emitter.once', 'tinyemitter.Emitter.off', 'tinyemitter.Emitter.emit')
     bounds = 'two event names; <=3 listeners on the first, <=1 on the second (thorough: <=4 and <=2); callback identities symbolic in a pool of 3; ' \
-             'contexts {k: symbolic int}; one operation, re-entrancy depth 1 (one acting callback, acting once)'
+             'contexts {k: symbolic int}; one operation with one re-entrant operation by one acting callback; plus, on selected shapes, a callback performing ' \
+             'two operations during delivery and two acting callbacks (re-entrancy two levels deep)'
     outside = ('listener lists longer than 3', 'callbacks raising exceptions', 'nesting deeper than 1')
 
     def cases(self, tier):
@@ -185,7 +188,14 @@ class EmitterStep(Harness):
             for ib, sb in enumerate(shapes_b):
                 if tier == 'quick' and ib and len(sa) == 3:
                     continue
-                out.append({'a': ''.join(sa), 'b': ''.join(sb)})
+                out.append({'a': ''.join(sa), 'b': ''.join(sb), 'mode': 'one'})
+        # a callback performing TWO operations during delivery, and two acting callbacks (re-entrancy two levels deep)
+        deep_shapes = [('p', 'p'), ('pp', 'p'), ('po', 'p'), ('pp', ''), ('op', 'o')]
+        if tier == 'thorough':
+            deep_shapes += [('ppp', 'p'), ('pop', 'o'), ('pp', 'pp'), ('ooo', 'p')]
+        for a, b in deep_shapes:
+            out.append({'a': a, 'b': b, 'mode': 'two_ops'})
+            out.append({'a': a, 'b': b, 'mode': 'two_actors'})
         return out
 
     def build(self, e, p):
@@ -193,26 +203,42 @@ class EmitterStep(Harness):
         ctxs = [e.fresh_int('ctx%d' % i, 0, 3) for i in range(len(p['a']) + len(p['b']))]
         return {'ids': ids, 'ctxs': ctxs, 'opcb': e.fresh_int('opcb', 0, 2), 'arg': e.fresh_int('arg'),
                 'actor': e.fresh_int('actor', 0, 2), 'actcb': e.fresh_int('actcb', 0, 2), 'actarg': e.fresh_int('actarg'),
-                'opk': None, 'opname': None, 'actk': None, 'actname': None}
+                'actor2': e.fresh_int('actor2', 0, 2), 'actcb2': e.fresh_int('actcb2', 0, 2),
+                'opk': None, 'opname': None, 'acts': None}
 
-    def _choices(self, env, inp):
+    def _choices(self, env, inp, p):
         # structural choices are forks (symbolic side) or recorded values (replay side)
         if env.symbolic:
             e = E.cur()
-            inp['opk'] = OPS[e.choose(len(OPS))]
-            inp['opname'] = 'AB'[e.choose(2)]
-            inp['actk'] = ACTIONS[e.choose(len(ACTIONS))]
-            inp['actname'] = 'AB'[e.choose(2)] if inp['actk'] else 'A'
-        return inp['opk'], inp['opname'], inp['actk'], inp['actname']
+            mode = p.get('mode', 'one')
+            if mode == 'one':
+                inp['opk'] = OPS[e.choose(len(OPS))]
+                inp['opname'] = 'AB'[e.choose(2)]
+                k = ACTIONS[e.choose(len(ACTIONS))]
+                inp['acts'] = [[[k, 'AB'[e.choose(2)] if k else 'A']]] if k else []
+            else:
+                # the outer operation is an emit; the acting callbacks' operations are chosen among the re-entrant ones
+                inp['opk'] = 'emit'
+                inp['opname'] = 'AB'[e.choose(2)]
+                pick = lambda: [ACTIONS[1 + e.choose(len(ACTIONS) - 1)], 'AB'[e.choose(2)]]
+                if mode == 'two_ops':
+                    inp['acts'] = [[pick(), pick()]]
+                else:
+                    inp['acts'] = [[pick()], [pick()]]
+        return inp['opk'], inp['opname'], inp['acts']
 
     def run(self, env, inp, p):
-        opk, opname, actk, actname = self._choices(env, inp)
+        opk, opname, acts = self._choices(env, inp, p)
         Emitter = env.mod('tinyemitter').Emitter
         outs = []
         for real in (True, False):
             em = Emitter() if real else RefEmitter()
-            actor = inp['actor'] if actk else None
-            world = World(em, actor, (actk, actname, inp['actcb'], inp['actarg']))
+            actors = []
+            idents = [inp['actor'], inp['actor2']]
+            cbs = [inp['actcb'], inp['actcb2']]
+            for i, oplist in enumerate(acts):
+                actors.append((idents[i], [(k, nm, cbs[i], inp['actarg']) for k, nm in oplist]))
+            world = World(em, actors)
             k = 0
             for name, shape in (('A', p['a']), ('B', p['b'])):
                 for kind in shape:
